@@ -27,7 +27,9 @@ Del(t, x) == [k |-> "del", inner |-> t, x |-> x]
 
 PrimsAll == {Bool} \cup { U(n, m) : n \in 1..64, m \in {"s", "t"} } \cup { I(n) : n \in 2..64 }
             \cup { F(n, m) : n \in {16, 32, 64}, m \in {"s", "t"} } \cup { V(n) : n \in 1..64 }
-PrimsSmall == { Bool, U(3, "s"), U(8, "t"), U(12, "s"), I(13), F(16, "s"), V(5) }
+\* (the last entry: two variants whose sets differ but agree in min, max and residues mod 32)
+PrimsSmall == { Bool, U(3, "s"), U(8, "t"), U(12, "s"), I(13), F(16, "s"), V(5),
+                Un(<<Var(U(64, "s"), 2), Var(U(32, "s"), 4)>>), St(<<Var(St(<<U(8, "s")>>), 2), U(3, "s")>>) }
 Comp == St(<<U(8, "s")>>)                       \* a byte-aligned composite sibling
 Sibs == { Bool, U(4, "s"), U(12, "s"), V(3), Comp, Var(U(12, "s"), 2) }
 Sibs2 == { U(4, "s"), Comp }
